@@ -16,13 +16,13 @@ func TestDbgPlan(t *testing.T) {
 	seed, _ := strconv.ParseUint(s, 10, 64)
 	switch os.Getenv("DBG_PROFILE") {
 	case "buffer":
-		b, _ := json.Marshal(genBuffer(seed))
+		b, _ := json.Marshal(genBuffer(seed, false))
 		fmt.Println(string(b))
 	case "alloc":
-		b, _ := json.Marshal(genAlloc(seed))
+		b, _ := json.Marshal(genAlloc(seed, false))
 		fmt.Println(string(b))
 	default:
-		b, _ := json.Marshal(genTree(seed, os.Getenv("DBG_PROFILE") == "treereopen"))
+		b, _ := json.Marshal(genTree(seed, os.Getenv("DBG_PROFILE") == "treereopen", false))
 		fmt.Println(string(b))
 	}
 }
